@@ -217,8 +217,13 @@ unsigned MessageBase::decode_group(GroupBase *grpbase, const unsigned short fnum
 	{
 		unique_ptr<MessageBase> grp(grpbase->create_group(false)); // shallow create
 
-		for (unsigned pos(0); s_offset < fsize && (result = extract_element(dptr + s_offset, fsize - s_offset, tag, val));)
+		for (unsigned pos(0); ok && s_offset < fsize;)
 		{
+			if (!(result = extract_element(dptr + s_offset, fsize - s_offset, tag, val)))
+			{
+				ok = false;	// nothing more can be extracted: stop repeating, do not spin creating empty elements
+				break;
+			}
 			const unsigned tv(tag_value(tag));
 			if (permissive_mode && (tv > 0xffff || !_ctx.find_be(tv)))	// not in the dictionary: pass through with this element
 			{
